@@ -15,20 +15,27 @@ CONSTANTS Addrs, Tokens,        \* client addresses; sequence of token ids in th
           MaxOps,
           DevNoExpiry,              \* deviation: hasValidSession ignores the expiry
           DevLogoutKeeps,           \* deviation: logout clears the cookie but keeps the server-side session
-          DevLimiterPerWindowStart  \* deviation: fixed window counted from its first hit, reset as a whole
+          DevLimiterPerWindowStart, \* deviation: fixed window counted from its first hit, reset as a whole
+          DevAnyCookieValid,        \* deviation: hasValidSession accepts if ANY same-named session cookie is live, logout still drops the first only
+          PairJars                  \* TRUE: requests/logouts carrying two different issued tokens are offered too
 VARIABLES enabled, now, ticks, sessions, ntok, hits,   \* implementation state
-          issuedAt, loggedOut, admitted,               \* history (what the property talks about)
+          issuedAt, loggedOut, loggedOutJars, admitted,  \* history (what the property talks about)
           last, hist
-vars == <<enabled, now, ticks, sessions, ntok, hits, issuedAt, loggedOut, admitted, last, hist>>
+vars == <<enabled, now, ticks, sessions, ntok, hits, issuedAt, loggedOut, loggedOutJars, admitted, last, hist>>
 
 TokenSet == {Tokens[i] : i \in 1..Len(Tokens)}
-Cookies == {"none", "forged"} \cup {Tokens[i] : i \in 1..ntok}
+Issued == {Tokens[i] : i \in 1..ntok}
+\* cookie lists a client can present: none, a forged value, an issued token, or two same-named session cookies
+Jars == {<<>>, <<"forged">>} \cup {<<t>> : t \in Issued}
+        \cup {<<"forged", t>> : t \in Issued} \cup {<<t, "forged">> : t \in Issued}
+        \cup (IF PairJars THEN {<<t, u>> : t, u \in Issued} \ {<<t, t>> : t \in Issued} ELSE {})
+Eff(jar) == IF jar = <<>> THEN "none" ELSE jar[1]        \* sessionToken(): r.Cookie(name) is the first cookie of that name
 Min(a, b) == IF a < b THEN a ELSE b
 Rep(n, x) == [i \in 1..n |-> x]
 
 Init == /\ enabled \in BOOLEAN /\ now = 0 /\ ticks = [d \in DOMAIN TickBudget |-> 0]
         /\ sessions = [t \in TokenSet |-> -1] /\ ntok = 0 /\ hits = [a \in Addrs |-> <<>>]
-        /\ issuedAt = [t \in TokenSet |-> -1] /\ loggedOut = {} /\ admitted = [a \in Addrs |-> <<>>]
+        /\ issuedAt = [t \in TokenSet |-> -1] /\ loggedOut = {} /\ loggedOutJars = {} /\ admitted = [a \in Addrs |-> <<>>]
         /\ last = [op |-> "init"] /\ hist = <<[a |-> "Init", enabled |-> enabled]>>
 
 Step(h) == Len(hist) < MaxOps /\ hist' = Append(hist, h)
@@ -57,49 +64,55 @@ Login(a, good, n) ==
                            /\ issuedAt' = [issuedAt EXCEPT ![tok] = now]
                       ELSE UNCHANGED <<sessions, ntok, issuedAt>>
           /\ last' = [op |-> "Login", adm |-> k, token |-> IF issue THEN tok ELSE "none"]
-  /\ UNCHANGED <<enabled, now, ticks, loggedOut>>
+  /\ UNCHANGED <<enabled, now, ticks, loggedOut, loggedOutJars>>
 
-Logout(c) ==
-  /\ Step([a |-> "Logout", cookie |-> c])
-  /\ IF c \in TokenSet
-     THEN /\ sessions' = [sessions EXCEPT ![c] = IF DevLogoutKeeps THEN @ ELSE -1]
-          /\ loggedOut' = loggedOut \cup {c}
-     ELSE UNCHANGED <<sessions, loggedOut>>
+\* a multi-cookie list stays interesting only while it carries a token that could still be live
+Relevant(S, lo) == {j \in S : \E i \in 1..Len(j) : j[i] \in TokenSet /\ issuedAt[j[i]] >= 0 /\ j[i] \notin lo}
+Logout(jar) ==
+  LET c == Eff(jar)
+      lo == IF Len(jar) = 1 /\ c \in TokenSet THEN loggedOut \cup {c} ELSE loggedOut IN
+  /\ Step([a |-> "Logout", cookies |-> jar])
+  /\ sessions' = IF c \in TokenSet /\ ~DevLogoutKeeps THEN [sessions EXCEPT ![c] = -1] ELSE sessions
+  /\ loggedOut' = lo
+  /\ loggedOutJars' = Relevant(IF Len(jar) >= 2 THEN loggedOutJars \cup {jar} ELSE loggedOutJars, lo)
   /\ last' = [op |-> "Logout"]
   /\ UNCHANGED <<enabled, now, ticks, ntok, hits, issuedAt, admitted>>
 
 \* requireAuth / hasValidSession
-Valid(c) == /\ enabled /\ c \in TokenSet /\ sessions[c] >= 0
-            /\ DevNoExpiry \/ now <= sessions[c]           \* !time.Now().After(expiry)
-Request(c) ==
-  /\ Step([a |-> "Request", cookie |-> c])
-  /\ last' = [op |-> "Request", cookie |-> c, served |-> Valid(c)]
-  /\ sessions' = IF enabled /\ c \in TokenSet /\ sessions[c] >= 0 /\ ~Valid(c) THEN [sessions EXCEPT ![c] = -1] ELSE sessions  \* expired entry is dropped
-  /\ UNCHANGED <<enabled, now, ticks, ntok, hits, issuedAt, loggedOut, admitted>>
+TokValid(c) == /\ c \in TokenSet /\ sessions[c] >= 0
+               /\ DevNoExpiry \/ now <= sessions[c]           \* !time.Now().After(expiry)
+Valid(jar) == enabled /\ IF DevAnyCookieValid THEN \E i \in 1..Len(jar) : TokValid(jar[i]) ELSE TokValid(Eff(jar))
+Request(jar) ==
+  LET c == Eff(jar) IN
+  /\ Step([a |-> "Request", cookies |-> jar])
+  /\ last' = [op |-> "Request", cookies |-> jar, served |-> Valid(jar)]
+  /\ sessions' = IF enabled /\ c \in TokenSet /\ sessions[c] >= 0 /\ ~TokValid(c) THEN [sessions EXCEPT ![c] = -1] ELSE sessions  \* expired entry is dropped
+  /\ UNCHANGED <<enabled, now, ticks, ntok, hits, issuedAt, loggedOut, loggedOutJars, admitted>>
 
 Tick(d) ==
   /\ ticks[d] < TickBudget[d]
   /\ Step([a |-> "Tick", d |-> d])
   /\ now' = now + d /\ ticks' = [ticks EXCEPT ![d] = @ + 1]
   /\ last' = [op |-> "Tick"]
-  /\ UNCHANGED <<enabled, sessions, ntok, hits, issuedAt, loggedOut, admitted>>
+  /\ UNCHANGED <<enabled, sessions, ntok, hits, issuedAt, loggedOut, loggedOutJars, admitted>>
 
 Next == \/ \E a \in Addrs : \E good \in BOOLEAN : Login(a, good, 1)
         \/ \E a \in Addrs : \E n \in Bursts : Login(a, FALSE, n)
-        \/ \E c \in Cookies : Logout(c) \/ Request(c)
+        \/ \E jar \in Jars : Logout(jar) \/ Request(jar)
         \/ \E d \in DOMAIN TickBudget : Tick(d)
 Spec == Init /\ [][Next]_vars
 
 \* C38 as state invariants: whatever cookie is presented now, the answer of a protected endpoint obeys the predicate
-P(c) == INSTANCE ConsoleAuthProps WITH req <- [cookie |-> c, served |-> Valid(c)], now <- now, issuedAt <- issuedAt,
-          loggedOut <- loggedOut, ttl <- TTL, admitted <- admitted, window <- Window, limit <- Limit
-C38_SessionRequired == \A c \in Cookies : P(c)!C38_SessionRequired
-C38_RateLimit == P("none")!C38_RateLimit
-\* conformance-level facts (not part of the property): the converse direction and bookkeeping
-LiveIsServed == enabled => \A c \in Cookies : P(c)!Live(c) => Valid(c)
+P(jar) == INSTANCE ConsoleAuthProps WITH req <- [cookies |-> jar, served |-> Valid(jar)], now <- now, issuedAt <- issuedAt,
+          loggedOut <- loggedOut, loggedOutJars <- loggedOutJars, ttl <- TTL, admitted <- admitted, window <- Window, limit <- Limit
+C38_SessionRequired == \A jar \in Jars : P(jar)!C38_SessionRequired
+C38_RateLimit == P(<<>>)!C38_RateLimit
+\* conformance-level facts (not part of the property): bookkeeping.  The converse direction (a live session is served)
+\* is checked by layer C, which compares every observed outcome with the model's.
+SessionsAreIssued == \A t \in TokenSet : sessions[t] >= 0 => (issuedAt[t] >= 0 /\ sessions[t] = issuedAt[t] + TTL)
 HitsBounded == \A a \in Addrs : Len(hits[a]) <= Limit
 
 \* last is pure output, hist pure history: neither is read by any action or invariant
-View == <<enabled, now, ticks, sessions, ntok, hits, issuedAt, loggedOut, admitted>>
+View == <<enabled, now, ticks, sessions, ntok, hits, issuedAt, loggedOut, loggedOutJars, admitted>>
 EmitSched == PrintT(<<"SCHED", ToJson(hist)>>)
 ====
